@@ -1,0 +1,14 @@
+//go:build verif
+
+package verifx
+
+import "github.com/rqlite/rqlite/v10/internal/verifhook"
+
+// InstallHooks is verifhook.Install.
+func InstallHooks(hit func(string) error, yield func(string), note func(string, int64),
+	dirSynced func(string), fatal func(string, error) bool) {
+	verifhook.Install(hit, yield, note, dirSynced, fatal)
+}
+
+// ResetHooks is verifhook.Reset.
+func ResetHooks() { verifhook.Reset() }
